@@ -742,6 +742,27 @@ def reset_order(repo):
     return out
 
 
+def poison_guard(repo):
+    """ToLeafNode's cancel branch: (a loop over the stack assigns the Cancelled leaf to frame->op_node->cache_,
+    every such assignment is guarded by `if (!frame->op_node->cache_)`, this->cache_ is assigned)."""
+    src = strip_comments(open(os.path.join(repo, "src", "csg_tree.cpp")).read())
+    m = re.search(r"CsgOpNode::ToLeafNode\s*\(", src)
+    if not m:
+        raise TranslateError("cannot find CsgOpNode::ToLeafNode")
+    body = src[m.end():]
+    m2 = re.search(r"if\s*\(\s*IsCancelled\s*\(\s*ctx\s*\)\s*\)\s*\{", body)
+    if not m2:
+        raise TranslateError("cannot find the cancel branch of ToLeafNode")
+    i = m2.end(); d = 1; j = i
+    while j < len(body) and d:
+        d += body[j] == "{"; d -= body[j] == "}"; j += 1
+    br = re.sub(r"\s+", " ", body[i:j])
+    loop = re.search(r"for \( ?auto ?& ?frame : stack ?\) ?\{(.*?)\} (?:auto|cache_|return)", br)
+    assigns = re.findall(r"(if ?\( ?! ?frame->op_node->cache_ ?\) ?)?frame->op_node->cache_ ?= ?", loop.group(1)) if loop else []
+    return dict(frames=bool(loop and assigns), guarded=bool(assigns) and all(a for a in assigns),
+                this=bool(re.search(r"[; }] ?cache_ ?= ?cancelled ?;", br)))
+
+
 FK = {"decl": "FDecl", "release": "FRelease", "ctxcall": "FCtxCall", "ret": "FRet", "noop": "FNoop", "hdr": "FNoop",
       "allowed": "FAllowed", "use": "FUse"}
 TK = {"AbortP": "TCheckP", "AbortF": "TCheckF", "EndCallee": "TEndCallee", "EndTop": "TEndTop"}
@@ -792,6 +813,10 @@ def translate(repo, out_v=None):
         return "[" + "; ".join("RDone" if x.startswith("done") else "RTotal" for x in seq) + "]"
     coq.append("Definition reset_order_tree : list rstep := %s." % enc(ro["GetCsgLeafNode"]))
     coq.append("Definition reset_order_factory : list rstep := %s." % enc(ro["ResetForStaticFactory"]))
+    pg = poison_guard(repo)
+    res["poison"] = pg
+    coq.append("Definition poison_all_frames : bool := %s." % ("true" if pg["frames"] else "false"))
+    coq.append("Definition poison_guarded : bool := %s." % ("true" if pg["guarded"] else "false"))
     coq.append("Definition completion_topup : bool := %s." % ("true" if res["topup"] else "false"))
     coq.append("Definition k_phases_per_boolean : nat := %d." % (res["consts"].get("kPhasesPerBoolean") or 0))
     coq.append("Definition boolean_phase_sites : nat := %d.\n" % [n for c, v, n in res["phase_table"] if c == "kPhasesPerBoolean"][0])
